@@ -187,7 +187,12 @@ type fatalMark struct{ msg string }
 
 type fatalHook struct{}
 
+// fatalMsg: set by the hook right before it panics, so that the driver tells a Fatal (process exit
+// in the real collector) from a run-time panic without disturbing hx.Catch's panic-site capture
+var fatalMsg string
+
 func (fatalHook) OnWrite(ce *zapcore.CheckedEntry, _ []zapcore.Field) {
+	fatalMsg = ce.Message
 	panic(fatalMark{ce.Message})
 }
 
